@@ -504,6 +504,39 @@ func TestC12(t *testing.T) {
 			case "grpcmux":
 				attack(mainSock, func(cr cred) (bool, error) { return intrudeGRPC(mainSock, cr, true, false) })
 			}
+		case "brokered-address-impostor":
+			// (no multiplexing) the address announced for a brokered id is served by somebody presenting another
+			// certificate; the host keeps trying for a while, as gRPC does by itself after a refused handshake
+			g := cli.(*vp.GRPCCli)
+			if _, err := cli.Do("grpc-accept", "id", 501, "nonce", "legit"); err == nil {
+				if r := vp.GRPCDialPing(g.Broker, 501, 20*time.Second, true); r.DialErr == "" && r.PingErr == "" && r.Msg == "501/legit" {
+					o.PositiveOK, o.Positive = true, "host dialled a genuine brokered listener and was answered "+r.Msg
+				} else {
+					o.Positive = r.DialErr + r.PingErr
+				}
+			}
+			if _, err := cli.Do("grpc-accept-impostor", "id", 502); err != nil {
+				o.SetupErr = "impostor accept: " + err.Error()
+				break
+			}
+			o.Target = "brokered address of id 502, served with a fresh self-signed certificate"
+			t0 := time.Now()
+			a := spec.C12Attempt{Cred: "impostor-at-brokered-address"}
+			if conn, err := g.Broker.Dial(502); err != nil {
+				a.Err = "dial: " + err.Error()
+			} else {
+				for time.Since(t0) < 5*time.Second {
+					msg, err := vp.PingConn(conn, 1500*time.Millisecond, grpc.WaitForReady(true))
+					if err == nil {
+						a.Answered, a.Err = true, "answered by "+msg
+						break
+					}
+					a.Err = trunc(err.Error(), 160)
+				}
+				conn.Close()
+			}
+			a.Ms = time.Since(t0).Milliseconds()
+			o.Attempts = append(o.Attempts, a)
 		case "plugin-brokered-session", "host-brokered-session":
 			// brokered listeners that have no socket of their own (multiplexing), or reached the broker's own
 			// way: the dial goes through the broker's DialWithOptions (the session, the knock) with only the
